@@ -178,7 +178,12 @@ def judge(w, prog, ren, part, origin, base_cache, label):
     # an uncaught user exception carries the (renamed) name of its class
     want_beh = (base['lines'][0], ren.get(base['lines'][1], base['lines'][1]))
     if obs[2]['status'] == 'ok' and (obs[0], obs[1]) != want_beh:
-        part.violation(f'behaviour-changes:{tag}', dict(wit, base_out=base['lines'], renamed_out=[obs[0][:8], obs[1], obs[2]['detail']]))
+        # one defect, whatever the name: a user name equal to a Python builtin that the emitted module itself uses (int / str / list ... in
+        # annotations, isinstance, range, print) shadows it. The criterion is read off the ORIGINAL output, not off a list of names.
+        import builtins
+        used = {n.id for n in ast.walk(ast.parse(base['py'][0])) if isinstance(n, ast.Name) and hasattr(builtins, n.id)}
+        btag = 'python-builtin-used-by-the-output' if (set(ren.values()) & used) else tag
+        part.violation(f'behaviour-changes:{btag}', dict(wit, base_out=base['lines'], renamed_out=[obs[0][:8], obs[1], obs[2]['detail']], builtins_used_by_output=sorted(used)))
         return
     part.held((label[0], label[1] if label[1] in POOL else 'ordinary'))
     if part.evaluations % 150 == 1:
